@@ -103,18 +103,26 @@ theorem step_eofMsg (c c' : Chan) (ev : Ev) (ms : List Msg) (os : List Out) (hw 
       · rw [hso] at h2; cases h2
   | writeEof => exact Or.inl (writeEof_eofMsg _ _ _ hs (step_writeEof_ok h).1 hm)
   | close =>
-    obtain ⟨c1, h1, h2⟩ := step_close_ok h
+    obtain ⟨c1, ms1, h1, h2⟩ := step_close_ok h
+    -- the credit `_discard_recv` sends is WINDOW_ADJUST only: the EOF is among the messages of the send half
+    have hm1 : Msg.eof ∈ ms1 := by
+      rcases h2 with ⟨_, _, hms, _⟩ | ⟨_, _, hms, _⟩
+      · rw [hms, discardRecv_msgs] at hm
+        rcases List.mem_append.mp hm with h3 | h3
+        · exact h3
+        · exact absurd h3 (not_mem_discardCredit c1 (by intro k hk; cases hk))
+      · rw [hms] at hm; exact hm
     have hs1 : c1.sendState = .eof ∨ c.sendState = .eofPending := by
       rcases h1 with ⟨_, hs2, h1⟩ | ⟨_, _, hm0⟩
       · have hw0 : WFs { c with sendEofPending := decide (c.sendState = .eofPending), sendState := .closePending } :=
           ⟨by simp only [ne_eq, reduceCtorEq, not_false_eq_true, iff_true]; exact hs.chanOpen.mpr hs2, by simp⟩
-        rcases flushSend_eofMsg _ _ _ hw0 h1 hm with h3 | ⟨_, h3⟩
+        rcases flushSend_eofMsg _ _ _ hw0 h1 hm1 with h3 | ⟨_, h3⟩
         · exact Or.inl h3
         · exact Or.inr (by simpa using h3)
-      · rw [hm0] at hm; simp at hm
+      · rw [hm0] at hm1; simp at hm1
     rcases hs1 with hs1 | hs1
     · left
-      rcases h2 with ⟨_, hc', _⟩ | ⟨_, hc', _⟩
+      rcases h2 with ⟨_, hc', _, _⟩ | ⟨_, hc', _, _⟩
       · rw [hc', (discardRecv_spec c1).sendState]; exact hs1
       · rw [hc']; exact hs1
     · exact Or.inr (Or.inr ⟨rfl, hs1⟩)
@@ -136,7 +144,7 @@ theorem step_eofMsg (c c' : Chan) (ev : Ev) (ms : List Msg) (os : List Out) (hw 
       obtain ⟨_, _, _, ha⟩ := step_recv_data_ok h
       rcases acceptData_cases c bs dt with ⟨_, h1⟩ | ⟨_, _, h1⟩ | ⟨_, _, _, h1⟩ | ⟨_, _, _, h1⟩
       · rw [h1] at ha; cases ha; simp at hm
-      · rw [h1] at ha; cases ha; simp at hm
+      · rw [h1] at ha; cases ha; exact absurd hm (not_mem_sendPkt_adjust c _ (by intro k hk; cases hk))
       · rw [h1] at ha; cases ha; simp at hm
       · rw [h1] at ha
         obtain ⟨sp, _⟩ := deliverData_spec c bs dt
@@ -178,9 +186,9 @@ theorem step_sendFlag (c c' : Chan) (ev : Ev) (ms : List Msg) (os : List Out) (h
     obtain ⟨_, _, _, _, _, _, _, _, _, h9, _⟩ := writeEof_spec _ _ _ hs (step_writeEof_ok h).1
     exact Or.inl (h9 hf)
   | close =>
-    obtain ⟨c1, h1, h2⟩ := step_close_ok h
+    obtain ⟨c1, ms1, h1, h2⟩ := step_close_ok h
     have hf1 : c1.sendEofPending = true := by
-      rcases h2 with ⟨_, hc', _⟩ | ⟨_, hc', _⟩
+      rcases h2 with ⟨_, hc', _, _⟩ | ⟨_, hc', _, _⟩
       · rw [hc'] at hf
         have := (discardRecv_spec c1).cfg
         unfold discardRecv at hf
@@ -447,7 +455,7 @@ theorem einv_step (s s' : Sys) (ev : Event) (hinv : Inv s) (he : EInv s) (h : s.
       simp only [Except.ok.injEq] at h
       subst h
       obtain ⟨c', ms, os⟩ := r
-      refine einv_step_core s _ z e.toEv c' ms os (s.link z) ((s.hist z).recordApp e) hinv he hr
+      refine einv_step_core s _ z e.toEv c' ms os (s.link z) ((s.hist z).recordApp e (s.ep z)) hinv he hr
         (Or.inr ⟨fun m => AppEv.toEv_not_recv e m, rfl⟩) ?_ ?_ (by simp [Sys.apply]) (by simp [Sys.apply])
         (by simp [Sys.apply]) (by simp [Sys.apply]) (by simp [Sys.apply]) (by simp [Sys.apply])
       · cases e <;> rfl
@@ -463,7 +471,7 @@ theorem einv_step (s s' : Sys) (ev : Event) (hinv : Inv s) (he : EInv s) (h : s.
         simp only [Except.ok.injEq] at h
         subst h
         obtain ⟨c', ms, os⟩ := r
-        refine einv_step_core s _ z (.recv m) c' ms os rest ((s.hist z).recordRecv m) hinv he hr
+        refine einv_step_core s _ z (.recv m) c' ms os rest ((s.hist z).recordRecv m (s.ep z)) hinv he hr
           (Or.inl ⟨m, rfl, hl⟩) ?_ ?_ (by simp [Sys.apply]) (by simp [Sys.apply])
           (by simp [Sys.apply]) (by simp [Sys.apply]) (by simp [Sys.apply]) (by simp [Sys.apply])
         · cases m <;> rfl
@@ -648,7 +656,7 @@ theorem sinv_step (s s' : Sys) (ev : Event) (hinv : Inv s) (hsi : SInv s) (h : s
       simp only [Except.ok.injEq] at h
       subst h
       obtain ⟨c', ms, os⟩ := r
-      refine sinv_step_core s _ z e.toEv c' ms os (s.link z) ((s.hist z).recordApp e) hinv hsi hr
+      refine sinv_step_core s _ z e.toEv c' ms os (s.link z) ((s.hist z).recordApp e (s.ep z)) hinv hsi hr
         (Or.inr ⟨fun m => AppEv.toEv_not_recv e m, rfl⟩) ?_ ?_ ?_ (by simp [Sys.apply]) (by simp [Sys.apply])
         (by simp [Sys.apply]) (by simp [Sys.apply]) (by simp [Sys.apply]) (by simp [Sys.apply])
       · cases e <;> rfl
@@ -665,7 +673,7 @@ theorem sinv_step (s s' : Sys) (ev : Event) (hinv : Inv s) (hsi : SInv s) (h : s
         simp only [Except.ok.injEq] at h
         subst h
         obtain ⟨c', ms, os⟩ := r
-        refine sinv_step_core s _ z (.recv m) c' ms os rest ((s.hist z).recordRecv m) hinv hsi hr
+        refine sinv_step_core s _ z (.recv m) c' ms os rest ((s.hist z).recordRecv m (s.ep z)) hinv hsi hr
           (Or.inl ⟨m, rfl, hl⟩) ?_ ?_ ?_ (by simp [Sys.apply]) (by simp [Sys.apply])
           (by simp [Sys.apply]) (by simp [Sys.apply]) (by simp [Sys.apply]) (by simp [Sys.apply])
         · cases m <;> rfl
@@ -713,9 +721,14 @@ theorem step_sendWaiting (c c' : Chan) (ev : Ev) (ms : List Msg) (os : List Out)
     obtain ⟨_, _, _, _, _, _, _, _, _, _, h10⟩ := writeEof_spec _ _ _ hs (step_writeEof_ok h).1
     exact ⟨fun hwt => Or.inl (h10.1 hwt), h10.2⟩
   | close =>
-    obtain ⟨c1, h1, h2⟩ := step_close_ok h
+    obtain ⟨c1, ms1, h1, h2⟩ := step_close_ok h
+    have hsub : ∀ m, m ∈ ms1 → m ∈ ms := by
+      intro m hmem
+      rcases h2 with ⟨_, _, hms, _⟩ | ⟨_, _, hms, _⟩
+      · rw [hms]; exact List.mem_append_left _ hmem
+      · rw [hms]; exact hmem
     have hc1 : c'.sendState = c1.sendState ∧ c'.sendEofPending = c1.sendEofPending := by
-      rcases h2 with ⟨_, hc', _⟩ | ⟨_, hc', _⟩
+      rcases h2 with ⟨_, hc', _, _⟩ | ⟨_, hc', _, _⟩
       · rw [hc']; refine ⟨(discardRecv_spec c1).sendState, ?_⟩
         unfold discardRecv; simp only; split <;> rfl
       · rw [hc']; exact ⟨rfl, rfl⟩
@@ -730,7 +743,7 @@ theorem step_sendWaiting (c c' : Chan) (ev : Ev) (ms : List Msg) (os : List Out)
           · exact absurd h3 hs1
         rcases sp.waiting hwt0 with h3 | h3
         · left; unfold SendWaiting at *; rw [hc1.1, hc1.2]; exact h3
-        · exact Or.inr (Or.inl h3)
+        · exact Or.inr (Or.inl (hsub _ h3))
       · rw [hc1.1] at he
         rcases sp.trans with ht | ⟨ht, _⟩ | ⟨_, ht⟩
         · rw [ht] at he; cases he
@@ -854,7 +867,7 @@ theorem siginv_step (s s' : Sys) (ev : Event) (hinv : Inv s) (hsg : GInvSig s) (
       simp only [Except.ok.injEq] at h
       subst h
       obtain ⟨c', ms, os⟩ := r
-      refine siginv_step_core s _ z e.toEv c' ms os (s.link z) ((s.hist z).recordApp e) hinv hsg hr
+      refine siginv_step_core s _ z e.toEv c' ms os (s.link z) ((s.hist z).recordApp e (s.ep z)) hinv hsg hr
         (Or.inr ⟨fun m => AppEv.toEv_not_recv e m, rfl⟩) ?_ ?_ ?_ (by simp [Sys.apply]) (by simp [Sys.apply])
         (by simp [Sys.apply]) (by simp [Sys.apply])
       · cases e <;> rfl
@@ -871,7 +884,7 @@ theorem siginv_step (s s' : Sys) (ev : Event) (hinv : Inv s) (hsg : GInvSig s) (
         simp only [Except.ok.injEq] at h
         subst h
         obtain ⟨c', ms, os⟩ := r
-        refine siginv_step_core s _ z (.recv m) c' ms os rest ((s.hist z).recordRecv m) hinv hsg hr
+        refine siginv_step_core s _ z (.recv m) c' ms os rest ((s.hist z).recordRecv m (s.ep z)) hinv hsg hr
           (Or.inl ⟨m, rfl, hl⟩) ?_ ?_ ?_ (by simp [Sys.apply]) (by simp [Sys.apply])
           (by simp [Sys.apply]) (by simp [Sys.apply])
         · cases m <;> rfl
